@@ -210,3 +210,22 @@ func isSplitFunc(sig *types.Signature) bool {
 	}
 	return isByteSlice(sig.Results().At(1).Type())
 }
+
+// mustPassThrough: every path from entry to a function exit goes through a block satisfying mark.
+func mustPassThrough(entry *ssa.BasicBlock, mark func(*ssa.BasicBlock) bool) bool {
+	seen := map[*ssa.BasicBlock]bool{}
+	work := []*ssa.BasicBlock{entry}
+	for len(work) > 0 {
+		b := work[0]
+		work = work[1:]
+		if seen[b] || mark(b) {
+			continue
+		}
+		seen[b] = true
+		if ir.IsExit(b) {
+			return false
+		}
+		work = append(work, b.Succs...)
+	}
+	return true
+}
